@@ -4,6 +4,7 @@ named checks (default: the property the change targets), undo the change, restor
 and the committed evidence.  Usage: tools/seedtest.py seeded/<dir> [Cxx ...] [--tier quick]"""
 import json, os, subprocess, sys, time
 VERIF = os.path.dirname(os.path.dirname(os.path.abspath(__file__)))
+REPO = os.environ.get("NB_REPO", "/repo")   # the repository the checks are tied to (an isolated copy for background regression runs)
 
 def main():
     args = [a for a in sys.argv[1:] if not a.startswith("--")]
@@ -14,10 +15,10 @@ def main():
     d = os.path.abspath(args[0])
     meta = json.load(open(os.path.join(d, "meta.json")))
     pids = args[1:] or [meta["property"]]
-    st = subprocess.run(["git", "-C", "/repo", "status", "--porcelain"], capture_output=True, text=True).stdout.strip()
+    st = subprocess.run(["git", "-C", REPO, "status", "--porcelain"], capture_output=True, text=True).stdout.strip()
     if st:
         print("refusing: /repo has uncommitted changes:\n" + st); return 2
-    r = subprocess.run(["git", "-C", "/repo", "apply", os.path.join(d, "patch.diff")], capture_output=True, text=True)
+    r = subprocess.run(["git", "-C", REPO, "apply", os.path.join(d, "patch.diff")], capture_output=True, text=True)
     if r.returncode != 0:
         print("patch does not apply:", r.stderr); return 2
     results = {}
@@ -41,8 +42,8 @@ def main():
             for v in viol[:2]:
                 print("   ", v)
     finally:
-        subprocess.run(["git", "-C", "/repo", "checkout", "--", "."])
-        subprocess.run(["git", "-C", "/repo", "clean", "-fdq", "src", "tests", "examples"])
+        subprocess.run(["git", "-C", REPO, "checkout", "--", "."])
+        subprocess.run(["git", "-C", REPO, "clean", "-fdq", "src", "tests", "examples"])
         subprocess.run([sys.executable, os.path.join(VERIF, "tools", "extract.py")], capture_output=True)
         subprocess.run(["git", "-C", VERIF, "checkout", "--", "evidence"], capture_output=True)
         subprocess.run(["rm", "-rf", os.path.join(VERIF, "evidence", "replays")])
